@@ -968,16 +968,34 @@ theorem listOf_cases (k : String) (args : List (String × Arg)) :
   · next items hg => exact .inl hg
   · exact .inr rfl
 
+/-- the reading-friendly formulation of `appendCore` in the model, as the sequence of updates it stands for -/
+def appendCoreSpec (h : Heap H) (self : Id) (k : String) (it : Item) : Heap H :=
+  let items := listOf k (h self).args
+  let h1 := setArgs h self (setKey k (.many (items ++ [it])) (h self).args)
+  match it with
+  | .node c => setPtr h1 c (some self) (some k) (some items.length)
+  | .leaf _ => h1
+
+theorem appendCore_eq (h : Heap H) (self : Id) (k : String) (it : Item) :
+    appendCore h self k it = appendCoreSpec h self k it := by
+  funext j
+  unfold appendCore appendCoreSpec
+  cases it with
+  | leaf s => simp only [setArgs, upd]; split <;> simp_all
+  | node c =>
+    simp only [setArgs, setPtr, upd]
+    by_cases h1 : j = c <;> by_cases h2 : j = self <;> simp_all
+
 theorem inv_appendCore (F : HashFns H) {h : Heap H} {self : Id} {k : String} {it : Item} (hI : Inv F h)
     (hs : (h self).hash = none) (hv : ItemOk h it) : Inv F (appendCore h self k it) := by
   have hargs : ∀ m, ((appendCore h self k it) m).args =
       (setArgs h self (setKey k (.many (listOf k (h self).args ++ [it])) (h self).args) m).args := by
-    intro m; unfold appendCore; cases it <;> simp
+    intro m; rw [appendCore_eq]; unfold appendCoreSpec; cases it <;> simp
   have hed := argsEdit_setKey hI.keys hargs
   refine ⟨?_, ?_, keys_edit hed hI.keys⟩
   · apply links_of_edit hI.links hed (fun m => it = .node m)
     · intro m hm
-      unfold appendCore
+      rw [appendCore_eq]; unfold appendCoreSpec
       cases it with
       | leaf s => simp [ptrs]
       | node c =>
@@ -995,7 +1013,7 @@ theorem inv_appendCore (F : HashFns H) {h : Heap H} {self : Id} {k : String} {it
           rcases listOf_cases k (h self).args with hg | hnil
           · have hst : Stored h self k (some j') c := ⟨_, hg, by simpa [ArgHas] using hac⟩
             have hp := hI.links _ _ _ _ hst
-            unfold appendCore
+            rw [appendCore_eq]; unfold appendCoreSpec
             cases it with
             | leaf s => simpa [ptrs] using hp
             | node c0 =>
@@ -1010,11 +1028,11 @@ theorem inv_appendCore (F : HashFns H) {h : Heap H} {self : Id} {k : String} {it
           rw [hj] at hac
           simp only [List.getElem?_cons_zero, Option.some.injEq] at hac
           subst hac
-          unfold appendCore
+          rw [appendCore_eq]; unfold appendCoreSpec
           simp only [ptrs, setPtr, upd_same, Prod.mk.injEq, Option.some.injEq, true_and]
           omega
   · apply cache_of_edit F hI.cache hs
-    · intro m; unfold appendCore; cases it <;> simp
+    · intro m; rw [appendCore_eq]; unfold appendCoreSpec; cases it <;> simp
     · intro m hm; rw [hargs, setArgs_args_other _ _ hm]
 
 theorem inv_opAppend (F : HashFns H) {fuel : Nat} {h h2 : Heap H} {self : Id} {k : String} {it : Item}
@@ -1435,47 +1453,5 @@ theorem recompute_hashOnly (F : HashFns H) {h h' : Heap H} (ho : HashOnly h h') 
       funext fun c => recompute_hashOnly F ho f c
     rw [this]
     exact hashNode_fields F (h n) (h' n) _ (ho n).1 (ho n).2.1 (ho n).2.2.1
-
-/-! ### admissible operations (the API precondition: an inserted value is not attached anywhere) -/
-
-def Adm (h : Heap H) : Op → Prop
-  | .new id _ _ => Fresh h id
-  | .set _ _ v _ _ => ValueOk h v
-  | .append _ _ it => ItemOk h it
-  | .replace self v => ValueOk h v ∧ Attached h self
-  | .pop self => Attached h self
-  | .hash _ => True
-  | .eq _ _ => True
-  | .copy _ _ => False   -- `copy` is treated separately (C09: `copy_inv`)
-
-/-- every operation of an admissible history is admissible in the state it is applied to -/
-def AdmRun [DecidableEq H] (F : HashFns H) (fuel : Nat) : Heap H → List Op → Prop
-  | _, [] => True
-  | h, op :: ops => Adm h op ∧ ∀ h', step F fuel h op = some h' → AdmRun F fuel h' ops
-
-theorem inv_step [DecidableEq H] (F : HashFns H) {fuel : Nat} {h h' : Heap H} {op : Op} (hI : Inv F h)
-    (ha : Adm h op) (he : step F fuel h op = some h') : Inv F h' := by
-  cases op with
-  | new id cls raw => simp only [step, Option.some.injEq] at he; subst he; exact inv_opNew F hI ha
-  | set self k v idx ow => exact inv_opSet F hI ha he
-  | append self k it => exact inv_opAppend F hI ha he
-  | replace self v => exact inv_opReplace F hI ha.1 ha.2 he
-  | pop self => exact inv_opPop F hI ha he
-  | hash n => exact (inv_fill F hI he).1
-  | eq a b =>
-    simp only [step, Option.map_eq_some_iff] at he
-    obtain ⟨⟨h1, r⟩, he1, he2⟩ := he
-    simp only at he2; subst he2
-    exact (inv_opEq F hI he1).1
-  | copy n base => exact ha.elim
-
-theorem inv_run [DecidableEq H] (F : HashFns H) {fuel : Nat} : ∀ (ops : List Op) {h h' : Heap H}, Inv F h →
-    AdmRun F fuel h ops → run F fuel h ops = some h' → Inv F h'
-  | [], h, h', hI, _, he => by simp only [run, Option.some.injEq] at he; subst he; exact hI
-  | op :: ops, h, h', hI, ha, he => by
-    simp only [run] at he
-    split at he
-    · next h1 h1e => exact inv_run F ops (inv_step F hI ha.1 h1e) (ha.2 h1 h1e) he
-    · cases he
 
 end SqlglotModel.Tree
